@@ -103,7 +103,8 @@ def _check_min_and_max_len(min_len, max_len):
 
     try:
         min_len, max_len = int(min_len), int(max_len)
-    except ValueError:
+    except (TypeError, ValueError):
+        # (A bound can be a name or an expression.)
         return
 
     if min_len > max_len:
